@@ -681,8 +681,179 @@ func binder(kind AKind, v string, n Poly, body Expr) Expr {
 	return atomExpr(&Atom{Kind: kind, Var: canon, N: n, Args: []Expr{body}})
 }
 
-// Sigma builds Σ_{v=0}^{n-1} body; v must be a fresh variable name (FreshVar).
+// Sigma builds Σ_{v=0}^{n-1} body; v must be a fresh variable name (FreshVar).  Directly nested sums
+// are put into a canonical binder order (the lexicographically least key over all orders).
 func Sigma(v string, n Poly, body Expr) Expr {
+	r := sigmaPlain(v, n, body)
+	// canonicalise pure chains Σ_v Σ_w … f
+	out := Expr{}
+	changed := false
+	for _, t := range r.terms {
+		var chainIdx = -1
+		for i, f := range t.f {
+			if f.a.Kind == ASigma && f.e == 1 {
+				if inner, ok := singleSigma(f.a.Args[0]); ok && inner != nil {
+					chainIdx = i
+					break
+				}
+			}
+		}
+		if chainIdx < 0 {
+			out = Add(out, Expr{terms: []term{t}})
+			continue
+		}
+		rest := Expr{terms: []term{{c: t.c, f: append(append([]fac{}, t.f[:chainIdx]...), t.f[chainIdx+1:]...)}}}
+		best := canonChain(t.f[chainIdx].a)
+		out = Add(out, Mul(rest, best))
+		changed = true
+	}
+	if !changed {
+		return r
+	}
+	return out
+}
+
+// singleSigma reports whether e is exactly one Σ atom (coefficient 1, exponent 1).
+func singleSigma(e Expr) (*Atom, bool) {
+	if len(e.terms) != 1 {
+		return nil, false
+	}
+	t := e.terms[0]
+	if len(t.f) != 1 || t.f[0].e != 1 || t.f[0].a.Kind != ASigma || t.c.Cmp(big.NewRat(1, 1)) != 0 {
+		return nil, false
+	}
+	return t.f[0].a, true
+}
+
+type sigBinder struct {
+	v string
+	n Poly
+}
+
+func canonChain(a *Atom) Expr {
+	var bs []sigBinder
+	cur := a
+	var core Expr
+	for {
+		fv := FreshVar()
+		body := cur.Args[0].SubstIdx(map[string]Poly{cur.Var: PAtom(fv)})
+		bs = append(bs, sigBinder{fv, cur.N})
+		if inner, ok := singleSigma(body); ok {
+			cur = inner
+			continue
+		}
+		core = body
+		break
+	}
+	// ranges must not depend on the bound variables
+	for _, b := range bs {
+		for _, o := range bs {
+			if b.n.HasAtom(o.v) {
+				return atomExpr(a)
+			}
+		}
+	}
+	if len(bs) > 6 {
+		return atomExpr(a)
+	}
+	// cheap canonical order: sort binders by a name-independent occurrence signature when it separates them
+	sigs := make([]string, len(bs))
+	distinct := true
+	seenSig := map[string]bool{}
+	for i, b := range bs {
+		sigs[i] = b.n.String() + "|" + occurrenceSig(core, b.v)
+		if seenSig[sigs[i]] {
+			distinct = false
+		}
+		seenSig[sigs[i]] = true
+	}
+	if distinct {
+		order := make([]int, len(bs))
+		for i := range order {
+			order[i] = i
+		}
+		sort.Slice(order, func(x, y int) bool { return sigs[order[x]] < sigs[order[y]] })
+		x := core
+		for i := len(order) - 1; i >= 0; i-- {
+			b := bs[order[i]]
+			fv := FreshVar()
+			x = sigmaPlain(fv, b.n, x.SubstIdx(map[string]Poly{b.v: PAtom(fv)}))
+		}
+		return x
+	}
+	if len(bs) > 5 {
+		return atomExpr(a)
+	}
+	var best Expr
+	bestKey := ""
+	perm := make([]int, len(bs))
+	for i := range perm {
+		perm[i] = i
+	}
+	var rec func(k int)
+	rec = func(k int) {
+		if k == len(perm) {
+			x := core
+			for i := len(perm) - 1; i >= 0; i-- {
+				b := bs[perm[i]]
+				fv := FreshVar()
+				x = sigmaPlain(fv, b.n, x.SubstIdx(map[string]Poly{b.v: PAtom(fv)}))
+			}
+			key := x.Key()
+			if bestKey == "" || key < bestKey {
+				best, bestKey = x, key
+			}
+			return
+		}
+		for i := k; i < len(perm); i++ {
+			perm[k], perm[i] = perm[i], perm[k]
+			rec(k + 1)
+			perm[k], perm[i] = perm[i], perm[k]
+		}
+	}
+	rec(0)
+	return best
+}
+
+// occurrenceSig lists where variable v occurs in e (leaf name and argument position), independent of
+// the names of other bound variables.
+func occurrenceSig(e Expr, v string) string {
+	var occ []string
+	var walkE func(x Expr, ctx string)
+	var walkA func(a *Atom, ctx string)
+	walkE = func(x Expr, ctx string) {
+		for _, t := range x.terms {
+			for _, f := range t.f {
+				walkA(f.a, ctx)
+			}
+		}
+	}
+	walkA = func(a *Atom, ctx string) {
+		switch a.Kind {
+		case ALeaf:
+			for i, p := range a.Idx {
+				if p.HasAtom(v) {
+					occ = append(occ, fmt.Sprintf("%s%s@%d/%d", ctx, a.Name, i, len(a.Idx)))
+				}
+			}
+		case ASym:
+			if a.Name == v {
+				occ = append(occ, ctx+"sym")
+			}
+		}
+		for i, x := range a.Args {
+			walkE(x, fmt.Sprintf("%s%d:%s%d>", ctx, a.Kind, a.Name, i))
+		}
+		if a.Cond != nil && a.Cond.Mentions(v) {
+			occ = append(occ, ctx+"cond")
+		}
+	}
+	walkE(e, "")
+	sort.Strings(occ)
+	return strings.Join(occ, ";")
+}
+
+func sigmaPlain(v string, n Poly, body Expr) Expr {
 	if c, ok := n.Const(); ok {
 		if c <= 0 {
 			return Expr{}
@@ -926,4 +1097,49 @@ func (e Expr) Leaves() []string {
 	}
 	sort.Strings(out)
 	return out
+}
+
+// SolveSym solves e == 0 for a real symbol when e has the form a·s + b with rational a ≠ 0 and b:
+// it returns the symbol and its value.
+func SolveSym(e Expr) (string, Expr, bool) {
+	var name string
+	var a *big.Rat
+	b := new(big.Rat)
+	for _, t := range e.terms {
+		switch len(t.f) {
+		case 0:
+			b = t.c
+		case 1:
+			f := t.f[0]
+			if f.a.Kind != ASym || f.e != 1 || name != "" {
+				return "", Expr{}, false
+			}
+			name, a = f.a.Name, t.c
+		default:
+			return "", Expr{}, false
+		}
+	}
+	if name == "" || a == nil || a.Sign() == 0 {
+		return "", Expr{}, false
+	}
+	v := new(big.Rat).Quo(new(big.Rat).Neg(b), a)
+	return name, Num(v), true
+}
+
+// OnlyInverseSizes reports whether e is a single term with coefficient 1 whose factors are all plain
+// symbols raised to negative powers (a product of inverse dimension sizes).
+func OnlyInverseSizes(e Expr) bool {
+	if len(e.terms) != 1 {
+		return false
+	}
+	t := e.terms[0]
+	if t.c.Cmp(big.NewRat(1, 1)) != 0 || len(t.f) == 0 {
+		return false
+	}
+	for _, f := range t.f {
+		if f.a.Kind != ASym || f.e >= 0 {
+			return false
+		}
+	}
+	return true
 }
